@@ -23,6 +23,25 @@ func vp12AnswerWire(k, n int, rt uint16) []byte {
 	}
 	w = append(w, 0, byte(rt>>8), byte(rt), 0, 1)
 	for i := 0; i < k; i++ {
+		if vp.Param("tmpl") == 1 && (rt == 5 || rt == 15 || rt == 33) {
+			// name-carrying record whose target lies under the tunnel domain: <fixed fields><label of n arbitrary bytes>
+			// followed by a compression pointer to "t.example." inside the question (offset 22)
+			var fixed []byte
+			switch rt {
+			case 15:
+				fixed = []byte{0, byte(10 * (i + 1))}
+			case 33:
+				fixed = []byte{0, byte(i + 1), 0, 0, 0, 0}
+			}
+			lab := vp.Bytes("rd", n)
+			rdlen := len(fixed) + 1 + n + 2
+			w = append(w, 0xC0, 0x0C, byte(rt>>8), byte(rt), 0, 1, 0, 0, 0, 1, 0, byte(rdlen))
+			w = append(w, fixed...)
+			w = append(w, byte(n))
+			w = append(w, lab...)
+			w = append(w, 0xC0, 22)
+			continue
+		}
 		w = append(w, 0xC0, 0x0C, byte(rt>>8), byte(rt), 0, 1, 0, 0, 0, 1, 0, byte(n))
 		rd := vp.Bytes("rd", n)
 		if rt == 5 || rt == 15 || rt == 33 {
